@@ -151,17 +151,26 @@ def norm(cwd, p):
     return posixpath.normpath(posixpath.join(cwd, p)) if p else cwd
 
 
+def rename_tree(t, m):
+    if not isinstance(t, dict):
+        return t
+    return {m.get(k, k): rename_tree(v, m) for k, v in t.items()}
+
+
 def scenario(case):
     op, kind, src_tree, dest, write_into, cwd, block, fallback = (case[k] for k in (
         "op", "kind", "tree", "dest", "write_into", "cwd", "block", "fallback"))
-    rig = Rig(tree=SERVER_TREE if op == "upload" else None, server_kwargs={"block_size": 7})
+    encoding = case.get("encoding", "utf-8")
+    if case.get("names"):
+        src_tree = rename_tree(src_tree, case["names"])
+    rig = Rig(tree=SERVER_TREE if op == "upload" else None, server_kwargs={"block_size": 7, "encoding": encoding})
     w = rig.world
     a = w.aioftp
     if fallback:
         rig.server.commands_mapping.pop("mlst")
         rig.server.commands_mapping.pop("mlsd")
     problems = []
-    client = a.Client(path_io_factory=a.MemoryPathIO)
+    client = a.Client(path_io_factory=a.MemoryPathIO, encoding=encoding)
     payload = src_tree if kind == "dir" else src_tree
     try:
         if op == "upload":
@@ -283,6 +292,7 @@ def work(item):
         part.outcomes[report.fp(sorted(p["kind"] for p in problems))] += 1
         for p in problems[:1]:
             sig = {"kind": p["kind"], "op": case["op"], "source_kind": case["kind"], "write_into": case["write_into"],
+                   "encoding": case.get("encoding", "utf-8"),
                    "dest_components": len([x for x in case["dest"].split("/") if x]) if case["op"] in ("upload", "download") else None}
             part.violation(sig, {"problem": p, "case": {k: (repr(v)[:200] if k == "tree" else v) for k, v in case.items()}},
                            replay={"case": {k: (_enc(v) if k == "tree" else v) for k, v in case.items()}})
@@ -325,7 +335,20 @@ def build_items(tier):
                                       "cwd": cwd, "block": 8192, "fallback": fallback})
                 cases.append({"op": "remove", "kind": kind, "tree": tree, "dest": "", "write_into": False, "cwd": cwd,
                               "block": 8192, "fallback": fallback})
+    # non-ASCII names through servers/clients configured with another encoding
+    for kind, tree in sources:
+        if kind != "dir" or count_nested(tree) > 3:
+            continue
+        for fallback in (False, True):
+            for op, dest in (("upload", "x"), ("download", "x"), ("list", "abs"), ("remove", "")):
+                cases.append({"op": op, "kind": kind, "tree": tree, "dest": dest, "write_into": False, "cwd": "/",
+                              "block": 8192, "fallback": fallback, "encoding": "latin-1",
+                              "names": {"a": "é", "b": "å b"}})
     return [cases[i:i + 25] for i in range(0, len(cases), 25)], len(sources)
+
+
+def count_nested(t):
+    return sum(1 + (count_nested(v) if isinstance(v, dict) else 0) for v in t.values())
 
 
 def run(tier, seed, t0):
@@ -335,7 +358,7 @@ def run(tier, seed, t0):
         items = items[k:] + items[:k]
     part = report.merge_all(report.pmap(work, items))
     bounds = {"sources": nsrc, "max_nodes": 4, "names": ["a", "b"], "destinations": DESTS, "write_into": [False, True],
-              "remote_cwd": ["/", "/w"], "block_sizes": [1, 8192], "servers": ["MLSD", "LIST fallback"],
+              "remote_cwd": ["/", "/w"], "block_sizes": [1, 8192], "servers": ["MLSD", "LIST fallback"], "encodings": ["utf-8", "latin-1 with non-ASCII names (trees <= 3 nodes)"],
               "ops": ["upload", "download", "list(recursive)", "remove"]}
     return report.finish(
         PID, tier, seed, "model_checking", part, t0,
